@@ -56,6 +56,31 @@ def short_ty(t):
     return t[:70]
 
 
+def positional_id_rules(ck, rule, facts):
+    """TypeId / TraitId values are positions in the definition vectors of the TypeContext: wherever an id is produced by `enumerate()`, the enumeration runs over the
+    whole vector (`<vec>.iter().enumerate()`), never over a filtered / skipped / reversed view -- otherwise every later definition is paired with the id of another type
+    and a backend names one type's file after another's definition.  Shared by C01 and C14."""
+    core = facts.core
+    n = 0
+    for f in core.fn_list:
+        if "hir" not in f or "::hir::type_context::" not in C.norm_path(f["path"]):
+            continue
+        for x in C.walk(C.fn_body(f)):
+            if x.get("k") != "mcall" or x.get("m") != "enumerate":
+                continue
+            ch, r = [], C.strip(x["recv"])
+            while isinstance(r, dict) and r.get("k") == "mcall":
+                ch.append(r["m"])
+                r = C.strip(r["recv"])
+            n += 1
+            bad = [m_ for m_ in ch if m_ not in ("iter", "iter_mut", "into_iter", "as_slice")]
+            key = "%s/enumerate#%d" % (C.norm_path(f["path"]).split("::")[-1], sum(1 for i in ck.instances if i["rule"] == rule and i["key"].startswith(C.norm_path(f["path"]).split("::")[-1] + "/enumerate")))
+            ck.expect(not bad, rule, key, "positions of the whole vector", "ids are produced by enumerating a `%s` view of the definition vector: the id of every definition after a skipped one is the position "
+                      "of a different definition (a C header named after one type declares another type's fields)" % ".".join(reversed(ch)), C.loc(f, x.get("ln")))
+    if n < 4:
+        ck.bad(rule, "type_context/enumerate-floor", "only %d id-producing enumerations found in hir::type_context (4 counted in all_types)" % n)
+
+
 def run(ck, facts):
     core, tool, tbin = facts.core, facts.tool, facts.toolbin
     adts = facts.all_adts()
@@ -140,6 +165,8 @@ def run(ck, facts):
         if "Map" in fl["ty"]:
             m = re.search(r"Map<&'\w+ (diplomat_core::ast::[\w:]+)", fl["ty"])
             ck.expect(bool(m), "R2", "LookupId.%s/keyed-by-node" % fl["name"], m.group(1) if m else "", "LookupId.%s is keyed by `%s`, not by the AST node: same-named types in different modules are conflated, so adding an unrelated type can change other types' files" % (fl["name"], short_ty(fl["ty"])), C.loc(li))
+
+    positional_id_rules(ck, "R2", facts)
 
     # ---------------- R3 non-bridge code inert
     ms = core.fn("ast::modules::Module::from_syn")
